@@ -37,7 +37,7 @@ META = dict(
               'als and for the dominance of the solve call over the per-angle calls; '
               'symbolic 2 x 2 matrix algebra (modulo cos^2 + sin^2 = 1) of the sphere'
               ' limit through _run_tmat / raw_scat_matrs / raw_fields'
-              "; sibling cross-check of the constructors' size guards against Sphere's, size guard of the hand-off evaluated per size (each size at zero and at infinity, the others in range); lens-integrand agreement and parity rules shared with C08 / C05; acceptance table evaluated with the uniformity tests as atoms (layered spheres refused by can_handle and by the hand-off)",
+              "; sibling cross-check of the constructors' size guards against Sphere's, size guard of the hand-off evaluated per size (each size at zero and at infinity, the others in range); lens-integrand agreement and parity rules shared with C08 / C05; acceptance table evaluated with the uniformity tests as atoms (layered spheres refused by can_handle and by the hand-off); orientation hand-off per guard assignment: axis-direction equality modulo 360 (sign / half-turn forms) and interval evaluation with guard refinement against the solver's angle range; failure-flag protocol of the compiled code (cleared on entry, tested after every call that may set it, raised in Python)",
     level_text='Exhaustive over the program units reachable from the f2py entry '
                'points (tmatrix_f: ampld; mie_f: every routine the wrappers '
                'call): every STOP / EXIT reachable from Python is enumerated and '
@@ -115,6 +115,8 @@ def run(check, prog):
     check.trusted += ['Fortran scanner (hpstatic/fortran.py)', 'meson.build inputs']
     root = prog.root
     stops(check, prog, root)
+    failure_protocol(check, prog, root)
+    angle_guard_agrees(check, prog, root)
     handoff(check, prog)
     # "sphere == Lorenz-Mie" for every call, not only the first on a theory
     # object: no solver output may be remembered on the theory / module between
@@ -432,6 +434,184 @@ def handoff(check, prog):
     sphere_limit(check, prog)
 
 
+
+def failure_protocol(check, prog, root):
+    """E3b: the compiled T-matrix code reports failure instead of ending the
+    process, and the report arrives.  A routine that gives up sets the flag in
+    COMMON /TMFAIL/ and returns with its results undefined.  Rule, over the units
+    reachable from the routine Python calls: (a) the entry routine clears the flag
+    on every call before the first solver call (a stale flag would fail every
+    later calculation); (b) every CALL of a routine that may set the flag --
+    directly or through a routine it calls -- is followed at once by a test of
+    the flag; (c) the entry routine hands the flag to Python, where
+    Tmatrix._run_tmat raises TmatrixFailure on a non-zero value before the
+    amplitudes are used."""
+    import re
+    tm_files = meson_inputs(root, TM_DIR)
+    fp = FortranProgram(root, tm_files)
+    entry = fp.units.get('AMPLD')
+    if entry is None:
+        check.error('subroutine AMPLD not found in the tmatrix_f sources')
+        return
+    reach = fp.reachable('AMPLD') or {}
+    FLAG = 'IFAIL'
+
+    def squash(t):
+        return ''.join(t.upper().split())
+    setters = set()
+    for uname in reach:
+        u = fp.units[uname]
+        if any('/TMFAIL/' in squash(t) for _, t in u.stmts) and any(
+                re.match(r'^%s=(?!0$)' % FLAG, squash(t)) or
+                re.search(r'\)%s=(?!0$)' % FLAG, squash(t)) for _, t in u.stmts):
+            if uname != 'AMPLD':
+                setters.add(uname)
+    check.need('routines reporting failure through /TMFAIL/', len(setters), 1,
+               'E3-failure-propagated', 'tmatrix_f failure flag',
+               'the solver routines report failure through the flag in COMMON /TMFAIL/',
+               '%s:%d' % (entry.path, entry.line),
+               missing='no routine sets the failure flag: a solver that gives up has '
+               'no way to say so short of ending the process')
+    # closure: a routine calling a setter without handling it is itself a setter
+    may_fail = set(setters)
+    changed = True
+    while changed:
+        changed = False
+        for uname in reach:
+            if uname not in may_fail and fp.units[uname].calls & may_fail:
+                may_fail.add(uname)
+                changed = True
+    nsites = 0
+    for uname in sorted(reach):
+        u = fp.units[uname]
+        st = [(line, squash(t)) for line, t in u.stmts]
+        for i, (line, t) in enumerate(st):
+            m = re.match(r'^(?:IF\(.*\))?CALL([A-Z_][A-Z0-9_]*)', t)
+            if not m or m.group(1) not in may_fail or m.group(1) == uname:
+                continue
+            nsites += 1
+            nxt = st[i + 1][1] if i + 1 < len(st) else ''
+            ok = nxt.startswith('IF(') and FLAG in re.findall(r'[A-Z_][A-Z0-9_]*',
+                                                               nxt.split(')')[0] + ')')
+            check.require(ok, 'E3-failure-propagated',
+                          '%s::%s after CALL %s' % (os.path.basename(u.path), uname,
+                                                    m.group(1)),
+                          'the failure flag is tested right after the call', '%s:%d' % (
+                              u.path, line),
+                          fail_detail='the statement after the call is `%s`: when %s '
+                          'gives up its results are undefined and the caller goes on '
+                          'with them' % (st[i + 1][1][:60] if i + 1 < len(st) else '',
+                                         m.group(1)))
+    check.floor('E3b calls of routines that may report failure', nsites, 4)
+    # (a) cleared on entry
+    st = [(line, squash(t)) for line, t in entry.stmts]
+    first_call = next((i for i, (_, t) in enumerate(st) if t.startswith('CALL')), len(st))
+    cleared = any(t == FLAG + '=0' for _, t in st[:first_call])
+    check.require(cleared, 'E3-failure-propagated', 'S.f::AMPLD clears the flag',
+                  'the flag is set to 0 on every call, before the solver is called',
+                  '%s:%d' % (entry.path, entry.line),
+                  fail_detail='a failure reported once stays set: every later '
+                  'calculation in the process fails')
+    # (c) Python side
+    q = TMATRIX + '._run_tmat'
+    fd = prog.func(q)
+    loc = prog.loc(q, fd)
+    hm = re.search(r'\((.*)\)', squash(entry.header))
+    dummies = hm.group(1).split(',') if hm else []
+    outs = []
+    for _, t in entry.stmts:
+        s_ = squash(t)
+        if 'INTENT(OUT)' in s_ and '::' in s_:
+            outs += [re.sub(r'\(.*$', '', x) for x in
+                     re.split(r',(?![^()]*\))', s_.split('::', 1)[1])]
+    outs = [d for d in dummies if d in outs]
+    flag_out = [d for d in outs if any(
+        re.match(r'^(?:IF\(.*\))?%s=%s$' % (d, FLAG), squash(t)) or
+        squash(t) == '%s=%s' % (d, FLAG) for _, t in entry.stmts)]
+    check.require(len(flag_out) == 1, 'E3-failure-propagated', 'S.f::AMPLD returns the flag',
+                  'one intent(out) argument of the entry routine carries the flag',
+                  '%s:%d' % (entry.path, entry.line),
+                  fail_detail='outputs %s, none assigned from %s' % (outs, FLAG))
+    if len(flag_out) != 1:
+        return
+    pos = outs.index(flag_out[0])
+    it = Interp(prog, max_depth=0)
+    res = it.analyze(q)
+    raised = False
+    for o in res.raises:
+        if 'TmatrixFailure' not in show(o.value):
+            continue
+        for t, pol in o.cond:
+            for x in subterms(t):
+                if x[0] == 'idx' and x[2] == num(pos) and x[1][0] == 'call' and \
+                        str(x[1][1]).endswith('ampld'):
+                    raised = True
+    check.require(raised, 'E3-failure-propagated', 'Tmatrix._run_tmat',
+                  'TmatrixFailure is raised when output %d of ampld (the failure flag) '
+                  'is non-zero' % pos, loc,
+                  fail_detail='no raise of TmatrixFailure depends on that output: a '
+                  'solver that gave up hands undefined amplitudes to the field '
+                  'calculation')
+
+
+def angle_guard_agrees(check, prog, root):
+    """E3c: the range test of the compiled code refuses nothing Python hands over.
+    `_parse_args` delivers alpha in [0, 360] and beta in [0, 180] (E3-angle-range),
+    detector angles are polar angles in [0, 180] and azimuths in [0, 360]; AMPL's
+    refusal is a disjunction of `X.LT.lo` / `X.GT.hi` tests.  Each must leave the
+    closed interval alone: a `.GE.` / `.LE.` or a tighter constant turns a
+    legitimate boundary orientation (a particle pointing along -z: beta = 180)
+    into a failure, and the reversed axis no longer gives the same result."""
+    import re
+    tm_files = meson_inputs(root, TM_DIR)
+    fp = FortranProgram(root, tm_files)
+    u = fp.units.get('AMPL')
+    if u is None:
+        check.error('subroutine AMPL not found in the tmatrix_f sources')
+        return
+    want = {'ALPHA': (0.0, 360.0), 'BETA': (0.0, 180.0), 'TL': (0.0, 180.0),
+            'TL1': (0.0, 180.0), 'PL': (0.0, 360.0), 'PL1': (0.0, 360.0)}
+    guards = []
+    for line, t in u.stmts:
+        s = ''.join(t.upper().split())
+        if s.startswith('IF(') and 'ALPHA.' in s and 'BETA.' in s:
+            guards.append((line, s))
+    check.need('angle-range test in AMPL', len(guards), 1, 'E3-angle-guard',
+               'ampld.lp.f::AMPL range test',
+               'the compiled code tests the ranges of its six angles',
+               '%s:%d' % (u.path, u.line))
+
+    def number(x):
+        m = re.match(r'^([0-9.]+)D?([-+]?\d+)?$', x)
+        if not m:
+            return None
+        return float(m.group(1)) * 10 ** int(m.group(2) or 0)
+    for line, s in guards:
+        cond = s[3:s.rindex(')')]
+        seen = {}
+        bad = []
+        for dis in cond.split('.OR.'):
+            m = re.match(r'^([A-Z0-9]+)\.(LT|LE|GT|GE)\.(.+)$', dis)
+            if not m or m.group(1) not in want:
+                bad.append('unrecognised test %s' % dis)
+                continue
+            name, op, val = m.group(1), m.group(2), number(m.group(3))
+            lo, hi = want[name]
+            if val is None:
+                bad.append('unrecognised bound in %s' % dis)
+            elif op == 'LT' and val <= lo or op == 'GT' and val >= hi:
+                seen.setdefault(name, set()).add(op)
+            elif op == 'LE' and val < lo or op == 'GE' and val > hi:
+                seen.setdefault(name, set()).add(op)
+            else:
+                bad.append('%s refuses part of [%g, %g]' % (dis, lo, hi))
+        check.require(not bad, 'E3-angle-guard', 'ampld.lp.f::AMPL range test',
+                      'every angle Python can hand over (closed intervals 0..360 for '
+                      'alpha and the azimuths, 0..180 for beta and the polar angles) '
+                      'passes the test', '%s:%d' % (u.path, line),
+                      fail_detail='; '.join(bad) + ': a legitimate boundary angle is '
+                      'answered with a failure (before f9bd274: with the end of the '
+                      'process)')
 
 def euler_handoff(check, canon, loc, cname, alpha, beta, A, B):
     """E5 / E3 for the orientation arguments.  (alpha, beta) are the azimuth and
